@@ -181,19 +181,14 @@ func (m *MonC08) OnLog(w *World, e *LogEntry) {
 			}
 		}
 		if r := c.Ref.LastResp; r != nil && r.ResRootErr && r.Resp == 1 {
-			// A resource response whose root is an error entry: after an access
-			// denial the client is left without a direct subscription (C04), after
-			// a load error the subscription stands. Decide from the access answer
-			// this connection last received for the resource.
-			switch w.lastAccessVerdict(c, r.ResRID, e.T) {
-			case 0:
-				c.Ref.Direct[r.ResRID]--
+			switch {
+			case r.ResDenied:
 				m.class("resource_response_denied")
-			case 1:
-				m.class("resource_response_load_error")
-			default:
+			case c.Ref.AmbigDirect[r.ResRID]:
 				m.ambig[fmt.Sprintf("%d|%s", c.Idx, r.ResRID)] = true
 				m.class("resource_response_error_ambiguous")
+			default:
+				m.class("resource_response_load_error")
 			}
 		}
 	case "cframe":
@@ -239,7 +234,13 @@ func (m *MonC08) OnLog(w *World, e *LogEntry) {
 			m.snaps[reqKey(e.Conn, r.ID)] = s
 		case "subscribe", "get":
 			// "evaluated afresh": quiet world, client does not hold the rid, nothing outstanding
-			if outstanding == 0 && !m.ambig[fmt.Sprintf("%d|%s", e.Conn, r.RID)] && w.pendingBefore(e.T) == 0 && c.Ref.Held[r.RID] == nil && c.Ref.Direct[r.RID] == 0 && c.CID != "" && validRIDRef(r.RID) {
+			anyAmbig := false
+			for k := range m.ambig {
+				if strings.HasPrefix(k, fmt.Sprintf("%d|", e.Conn)) {
+					anyAmbig = true
+				}
+			}
+			if outstanding == 0 && !anyAmbig && w.pendingBefore(e.T) == 0 && c.Ref.Held[r.RID] == nil && c.Ref.Direct[r.RID] == 0 && c.CID != "" && validRIDRef(r.RID) {
 				name, q := splitRID(strings.Replace(r.RID, "{cid}", c.CID, -1))
 				m.fresh[reqKey(e.Conn, r.ID)] = "access." + name + "|" + q + "|" + fmt.Sprint(e.Step)
 			}
